@@ -11,7 +11,7 @@ from mc.report import Report
 from oracles.smc_oracles import check_schedule
 
 LEVEL = "exploration"
-RULE = ("schedule-option grid (single-option sweeps + pairwise covering array in quick, full product in thorough; fixed schedules n=1..64/300, fixed schedules with a step cap, runs on a sampler object that already completed another run - incl. ramped-then-scalar targets -, each compared with the same run on a fresh object) x "
+RULE = ("schedule-option grid (single-option sweeps + pairwise covering array in quick, full product in thorough; fixed schedules n=1..64/300, fixed schedules with a step cap, runs on a sampler object that already completed another run - incl. ramped-then-scalar targets -, each compared with the same run on a fresh object; cap-ended runs continued from their last checkpoint with another schedule) x "
         "every environment behaviour with at most D deviations (D=2 quick, 3 thorough): initial population and the "
         "population returned by the kernel after each of the first 4 iterations are chosen from a menu of 5 log-weight "
         "spreads (flat, 3, 1e3, 1e7, 1e9; the initial population may also contain a zero-likelihood particle), resampling index tuples of the first 3 resamplings are enumerated; "
@@ -144,6 +144,53 @@ def run_tree(cfg):
     return r.dump()
 
 
+def run_continued(arg):
+    """A run that the step cap ended below temperature 1 is continued from its last checkpoint with another schedule
+    (continuous 2-D problem): the temperatures of the whole record still increase strictly and end at 1."""
+    from env import resume_harness as rh
+
+    first, second, sampler = arg
+    r = Report()
+    case = {"continued": True, "first": first, "second": second, "sampler": sampler}
+    base = {"sampler": sampler, "N": 8, "cadence": 1, "n_final": None, "precond": "none", "seed": 0}
+    A = rh.run(dict(base, opts=first))
+    r.case(explorer.digest(case), nontrivial=True)
+    if A.exception is not None or not A.sink:
+        r.violation(f"C06/continued/first-leg-raises/{A.exception[0] if A.exception else 'no-checkpoint'}", A.exception, case)
+        return r.dump()
+    b1 = A.history["beta"]
+    if b1[-1] >= 1.0:
+        raise explorer.HarnessError(f"first leg was meant to stop below 1: {b1}")
+    Bn = rh.run(dict(base, opts=second), resume_from=A.sink[-1][1])
+    if Bn.exception is not None:
+        r.violation(f"C06/continued/second-leg-raises/{Bn.exception[0]}/{Bn.exception[1] if len(Bn.exception) > 2 else ''}", Bn.exception, case)
+        return r.dump()
+    betas = Bn.history["beta"]
+    r.outcomes.add(explorer.digest(betas))
+    if betas[: len(b1)] != b1:
+        r.violation("C06/continued/earlier-temperatures-rewritten", {"first_leg": b1, "record": betas}, case)
+    prev = 0.0
+    for t, b in enumerate(betas):
+        if not (0.0 < b <= 1.0):
+            r.violation("C06/continued/beta-out-of-range", {"t": t, "beta": b, "record": betas}, case)
+        if not b > prev:
+            r.violation("C06/continued/not-strictly-increasing", {"t": t, "beta": b, "prev": prev, "record": betas}, case)
+            break
+        prev = b
+    if betas[-1] != 1.0:
+        r.violation("C06/continued/final-beta-not-1", {"record": betas}, case)
+    if not second.get("adaptive", True):
+        # a fixed continuation advances by 1/n_steps from where the first leg stopped (the last step may be shorter)
+        step = 1.0 / second["n_steps"]
+        rest = [b1[-1]] + betas[len(b1):]
+        for t in range(1, len(rest) - 1):
+            if abs((rest[t] - rest[t - 1]) - step) > 1e-12:
+                r.violation("C06/continued/fixed-step-not-1-over-n", {"step": rest[t] - rest[t - 1], "want": step, "record": betas}, case)
+                break
+    r.sample(case)
+    return r.dump()
+
+
 def run(tier, seed, workers):
     cfgs = configs(tier)
     if tier == "thorough":
@@ -151,6 +198,13 @@ def run(tier, seed, workers):
             c.setdefault("bound", 3 if c["opts"].get("adaptive", True) else 2)
     rep = Report()
     for d in pmap("checks.c06", "run_tree", cfgs, workers):
+        rep.merge(d)
+    cont = []
+    for first in ({"adaptive": True, "target_efficiency": 0.9, "min_step": 0.05, "max_n_steps": 2}, {"adaptive": False, "n_steps": 7, "max_n_steps": 2},
+                  {"adaptive": False, "n_steps": 3, "max_n_steps": 2}):
+        for second in ({"adaptive": False, "n_steps": 5}, {"adaptive": False, "n_steps": 7}, {"adaptive": True, "target_efficiency": 0.8}):
+            cont.append((first, second, "smc"))
+    for d in pmap("checks.c06", "run_continued", cont, workers):
         rep.merge(d)
     return rep
 
@@ -164,6 +218,9 @@ def _fix(cfg):
 
 def replay(case):
     r = Report()
+    if case.get("continued"):
+        r.merge(run_continued((case["first"], case["second"], case["sampler"])))
+        return r
     cfg = _fix(case["cfg"])
     ex = explorer.run_one(lambda ctx: run_execution(ctx, cfg), case["choices"])
     r.case("replay")
